@@ -176,4 +176,7 @@ def eraseXOut : XOut → XOut
 /-- The replicas agree with the primary. -/
 def Converged (rs : RState) : Prop := ∀ s ∈ rs.secs, Equiv rs.primary s
 
+instance (rs : RState) : Decidable (Converged rs) :=
+  inferInstanceAs (Decidable (∀ s ∈ rs.secs, Equiv rs.primary s))
+
 end Pithos.Replication
